@@ -25,6 +25,8 @@ pub struct XResult {
     pub spawn_faults: u64,
     pub write_faults: u64,
     pub short_writes: u64,
+    pub split_deliveries: u64,
+    pub lazy_readers: u64,
 }
 
 struct Standin {
@@ -51,7 +53,7 @@ fn exit_code(e: Exit) -> i32 {
 
 /// Run one case through the shipped binary. Only fault kinds that exist outside the simulator are honoured:
 /// missing executable and early exit; others are ignored by this engine.
-pub fn run_case(bins: &Binaries, case: &Case, reference: &[(String, Vec<u8>)], in_dir: &Path, scratch: &mut Scratch, seed: u64, slow_case: bool) -> Result<XResult, String> {
+pub fn run_case(bins: &Binaries, case: &Case, reference: &[(String, Vec<u8>)], in_dir: &Path, scratch: &mut Scratch, seed: u64, slow_case: bool, large_case: bool) -> Result<XResult, String> {
     let sock_dir = scratch.fresh_dir("sock");
     let sock = sock_dir.join("c.sock");
     let listener = UnixListener::bind(&sock).map_err(|e| format!("bind {}: {e}", sock.display()))?;
@@ -129,6 +131,8 @@ pub fn run_case(bins: &Binaries, case: &Case, reference: &[(String, Vec<u8>)], i
     let mut released = 0usize;
     let mut order: Vec<i64> = vec![];
     let mut grace_used = 0u64;
+    let mut split_deliveries = 0u64;
+    let mut lazy_readers = 0u64;
     let mut last_progress = Instant::now();
     let total = reference.len();
     let t0 = Instant::now();
@@ -157,8 +161,16 @@ pub fn run_case(bins: &Binaries, case: &Case, reference: &[(String, Vec<u8>)], i
             };
             let takes_ms = if slow { slow_lo + rng.below(slow_hi - slow_lo + 1) } else { 0 };
             let mut st = Standin { w, r, ordinal, got: None, released: false, early: early.as_ref().map(|e| (e.1.clone(), e.2)), died: false, ready_at: None, takes_ms };
+            // "large problems" cases: some provers are slow to start reading their input (real time), and provers are
+            // released as soon as they are ready instead of when all instances wait - so a worker can come back for the
+            // next problem while a sibling prover has not read its input yet
+            let lazy_ms = if large_case && rng.pct(45) { 120 + rng.below(260) } else { 0 };
+            if lazy_ms > 0 {
+                lazy_readers += 1;
+            }
             let sent = match &early {
                 Some((after, _, _)) => writeln!(st.w, "READ {after}"),
+                None if lazy_ms > 0 => writeln!(st.w, "READ ALL {lazy_ms}"),
                 None => writeln!(st.w, "READ ALL"),
             };
             if sent.is_err() || st.w.flush().is_err() {
@@ -217,8 +229,8 @@ pub fn run_case(bins: &Binaries, case: &Case, reference: &[(String, Vec<u8>)], i
         let expect = case.instances.max(1).min(remaining.max(1));
         let quiescent = all_waiting >= expect;
         let grace = !waiting.is_empty() && last_progress.elapsed() > Duration::from_millis(1500);
-        if !waiting.is_empty() && (quiescent || grace) {
-            if !quiescent {
+        if !waiting.is_empty() && (quiescent || grace || large_case) {
+            if !quiescent && !large_case {
                 grace_used += 1;
             }
             let pick = waiting[rng.below(waiting.len() as u64) as usize];
@@ -231,7 +243,21 @@ pub fn run_case(bins: &Binaries, case: &Case, reference: &[(String, Vec<u8>)], i
                     (o.stdout, o.stderr, exit_code(o.exit))
                 }
             };
-            let sent = write!(st.w, "FINISH {code} {} {}\n", out.len(), err.len()).and_then(|_| st.w.write_all(&out)).and_then(|_| st.w.write_all(&err)).and_then(|_| st.w.flush());
+            // delivery: now and then the prover flushes somewhere inside its output (often inside the status line)
+            // and the rest arrives a little later
+            let (split, pause_ms) = if !out.is_empty() && rng.pct(30) {
+                let at = match out.windows(10).position(|w| w == b"SZS status") {
+                    Some(p) if rng.pct(70) => (p + 1 + rng.below(24) as usize).min(out.len()),
+                    _ => rng.below(out.len() as u64 + 1) as usize,
+                };
+                (at, 20 + rng.below(200))
+            } else {
+                (out.len(), 0)
+            };
+            if split < out.len() {
+                split_deliveries += 1;
+            }
+            let sent = write!(st.w, "FINISH {code} {} {} {split} {pause_ms}\n", out.len(), err.len()).and_then(|_| st.w.write_all(&out)).and_then(|_| st.w.write_all(&err)).and_then(|_| st.w.flush());
             if sent.is_err() {
                 st.died = true;
             }
@@ -363,7 +389,7 @@ pub fn run_case(bins: &Binaries, case: &Case, reference: &[(String, Vec<u8>)], i
     if let Some(d) = out_dir {
         let _ = std::fs::remove_dir_all(d);
     }
-    Ok(XResult { violations: v, stdout, connections: standins.len(), grace_used, order, verdict, expected: all_proven, slow, spawn_faults, write_faults, short_writes })
+    Ok(XResult { violations: v, stdout, connections: standins.len(), grace_used, order, verdict, expected: all_proven, slow, spawn_faults, write_faults, short_writes, split_deliveries, lazy_readers })
 }
 
 /// Replay file of a violation seen by the E2 engine.
@@ -374,6 +400,8 @@ pub struct XReplay {
     pub seed: u64,
     pub cross_case: u64,
     pub slow_case: bool,
+    #[serde(default)]
+    pub large_case: bool,
     pub case: Case,
     pub violation: Violation,
     pub note: String,
@@ -384,7 +412,7 @@ pub fn replay(r: &XReplay) -> Result<Vec<Violation>, String> {
     let bins = Binaries::locate();
     let mut scratch = Scratch::new("xreplay");
     let prep = exec::prepare(&r.case, &mut scratch);
-    let x = run_case(&bins, &r.case, &prep.reference, &prep.in_dir, &mut scratch, mix2(r.seed, 1_000_000_000 + r.cross_case), r.slow_case)?;
+    let x = run_case(&bins, &r.case, &prep.reference, &prep.in_dir, &mut scratch, mix2(r.seed, 1_000_000_000 + r.cross_case), r.slow_case, r.large_case)?;
     Ok(x.violations)
 }
 
@@ -392,6 +420,9 @@ pub fn replay(r: &XReplay) -> Result<Vec<Violation>, String> {
 pub struct XSummary {
     pub runs: u64,
     pub grace_used: u64,
+    pub split_output_deliveries: u64,
+    pub large_problem_runs: u64,
+    pub provers_slow_to_read_their_input: u64,
     pub connections: u64,
     pub e1_e2_stdout_compared: u64,
     pub e1_e2_verdict_compared: u64,
@@ -422,6 +453,7 @@ pub fn campaign(seed: u64, n: u64, thorough: bool, workers: usize, e2_only: bool
     let mut hs = vec![];
     for w in 0..workers {
         let (bins, tasks, next, acc) = (bins.clone(), tasks.clone(), next.clone(), acc.clone());
+        let large_tasks: Vec<crate::corpus::Task> = tasks.iter().filter(|t| t.large).cloned().collect();
         hs.push(std::thread::Builder::new().stack_size(64 << 20).spawn(move || {
             anthem_simrt::sched::install_quiet_panic_hook();
             let mut scratch = Scratch::new(&format!("x{w}"));
@@ -436,9 +468,12 @@ pub fn campaign(seed: u64, n: u64, thorough: bool, workers: usize, e2_only: bool
                 // every 8th case is a "slow provers" case: enough problems that a queue forms behind two instances,
                 // each prover slow in real time but inside its own one-second limit
                 let slow_case = j % 8 == 7;
+                // every 8th case is a "large problems" case: every problem is larger than a pipe buffer, two or three
+                // instances, provers released as they come and some of them slow to read their input
+                let large_case = j % 8 == 3 && !large_tasks.is_empty();
                 let mut drawn = None;
                 for attempt in 0..if slow_case { 80u64 } else { 1 } {
-                    let (c, p, skip) = crate::c10::draw_case(seed, i + attempt * 1_000_003, &tasks, &tier, &mut scratch);
+                    let (c, p, skip) = crate::c10::draw_case(seed, i + attempt * 1_000_003, if large_case { &large_tasks } else { &tasks }, &tier, &mut scratch);
                     if skip.is_some() {
                         continue;
                     }
@@ -453,10 +488,15 @@ pub fn campaign(seed: u64, n: u64, thorough: bool, workers: usize, e2_only: bool
                     case.run_flags = vec!["-n".into(), "2".into(), "-t".into(), "1".into()];
                     case.instances = 2;
                 }
+                if large_case {
+                    let n = 2 + (j / 8) % 2;
+                    case.run_flags = vec!["-n".into(), n.to_string(), "-t".into(), "60".into()];
+                    case.instances = n as usize;
+                }
                 // keep only the fault kinds E2 can produce
                 case.plan.faults.retain(|_, f| matches!(f, Fault::EarlyExit { .. } | Fault::SpawnErr { .. } | Fault::WriteErr { .. }));
                 let fault_free = case.plan.faults.is_empty() && !case.plan.spawn_all_enoent;
-                let x = match run_case(&bins, &case, &prep.reference, &prep.in_dir, &mut scratch, mix2(seed, i), slow_case) {
+                let x = match run_case(&bins, &case, &prep.reference, &prep.in_dir, &mut scratch, mix2(seed, i), slow_case, large_case) {
                     Ok(x) => x,
                     Err(e) => {
                         acc.lock().unwrap().2.push(format!("case {j}: coordinator error: {e}"));
@@ -467,10 +507,15 @@ pub fn campaign(seed: u64, n: u64, thorough: bool, workers: usize, e2_only: bool
                     let mut a = acc.lock().unwrap();
                     a.0.runs += 1;
                     a.0.grace_used += x.grace_used;
+                    a.0.split_output_deliveries += x.split_deliveries;
+                    a.0.provers_slow_to_read_their_input += x.lazy_readers;
+                    if large_case {
+                        a.0.large_problem_runs += 1;
+                    }
                     a.0.connections += x.connections as u64;
                     *a.0.by_instances.entry(case.instances.to_string()).or_insert(0) += 1;
                     for v in &x.violations {
-                        a.1.push(XReplay { property: "C10".into(), engine: "E2".into(), seed, cross_case: j, slow_case, case: case.clone(), violation: v.clone(), note: "shipped binary, real threads and pipes, stand-in prover driven by the coordinator; the release order is drawn from the seed, the timing inside one quiescent step is the operating system's".into() });
+                        a.1.push(XReplay { property: "C10".into(), engine: "E2".into(), seed, cross_case: j, slow_case, large_case, case: case.clone(), violation: v.clone(), note: "shipped binary, real threads and pipes, stand-in prover driven by the coordinator; the release order is drawn from the seed, the timing inside one quiescent step is the operating system's".into() });
                     }
                     continue;
                 }
@@ -489,6 +534,11 @@ pub fn campaign(seed: u64, n: u64, thorough: bool, workers: usize, e2_only: bool
                 let mut a = acc.lock().unwrap();
                 a.0.runs += 1;
                 a.0.grace_used += x.grace_used;
+                    a.0.split_output_deliveries += x.split_deliveries;
+                    a.0.provers_slow_to_read_their_input += x.lazy_readers;
+                    if large_case {
+                        a.0.large_problem_runs += 1;
+                    }
                 a.0.connections += x.connections as u64;
                 *a.0.by_instances.entry(case.instances.to_string()).or_insert(0) += 1;
                 if case.plan.spawn_all_enoent {
@@ -507,7 +557,7 @@ pub fn campaign(seed: u64, n: u64, thorough: bool, workers: usize, e2_only: bool
                 a.0.write_faults_fired += x.write_faults;
                 a.0.short_writes_fired += x.short_writes;
                 for v in &x.violations {
-                    a.1.push(XReplay { property: "C10".into(), engine: "E2".into(), seed, cross_case: j, slow_case, case: case.clone(), violation: v.clone(), note: "shipped binary, real threads and pipes, stand-in prover driven by the coordinator; the release order is drawn from the seed, the timing inside one quiescent step is the operating system's".into() });
+                    a.1.push(XReplay { property: "C10".into(), engine: "E2".into(), seed, cross_case: j, slow_case, large_case, case: case.clone(), violation: v.clone(), note: "shipped binary, real threads and pipes, stand-in prover driven by the coordinator; the release order is drawn from the seed, the timing inside one quiescent step is the operating system's".into() });
                 }
                 // (faults injected through libc fire at different places in the two engines: no verdict comparison then)
                 let libc_faults = case.plan.faults.values().any(|f| matches!(f, Fault::SpawnErr { .. } | Fault::WriteErr { .. }));
